@@ -378,9 +378,13 @@ func (r *receiver) run(ctx context.Context) error {
 
 	// although we don't allow tranferring metadataPath, make sure there was no preexisting file/symlink
 	// (or directory: in merge mode, or behind a Filter, nothing has removed a stale one)
-	os.RemoveAll(filepath.Join(r.dest, metadataPath))
+	// (what cannot be removed - a symlink of another user in a sticky
+	// directory, an append-only directory - is not written through)
+	if err := os.RemoveAll(filepath.Join(r.dest, metadataPath)); err != nil {
+		return err
+	}
 
-	f, err := os.OpenFile(filepath.Join(r.dest, metadataPath), os.O_WRONLY|os.O_CREATE|os.O_TRUNC, 0644)
+	f, err := os.OpenFile(filepath.Join(r.dest, metadataPath), os.O_WRONLY|os.O_CREATE|os.O_EXCL, 0644)
 	if err != nil {
 		return err
 	}
